@@ -1,1 +1,177 @@
+/-
+  Property C20 — ABI <-> FFI conversion preserves signatures and is total on arbitrary schemas.
+  Model: FFS.Model.Ffi (pkg/ffi2abi/ffi.go: processField, buildABIParameterArrayForObject, input type validation).
+  Proved, for every schema:
+  * `null_property_is_error`, `missing_details_is_error`, `array_without_items_is_error`,
+    `missing_index_is_error`, `index_out_of_range_is_error`, `colliding_index_is_error`, `type_mismatch_is_error` :
+        each inconsistency the property names is reported as an error (not a panic, not a silently wrong ABI).
+  * `no_holes`  : when every member of an object schema has been placed, no position is left empty — the "nil
+        parameter" panic of `buildABIParameterArrayForObject` cannot be reached (placements are in range and never
+        overwrite, and there are as many as positions).
+  PARTIAL: the round trip ABI → FFI → ABI (same signature, names, nesting, indexed flags) and totality for schemas of
+  any depth are decided by the correspondence run; the model recurses on fuel (64 levels) and the sufficiency of
+  that fuel is not proved here.
+-/
 import FFS.Model.Ffi
+namespace FFS.Props.C20
+open FFS FFS.Model.Abi FFS.Model.Ffi
+
+theorem facts : Gen.FfiFacts.guards = true ∧ Gen.FfiFacts.innermostItems = true ∧ Gen.FfiFacts.nestedSignature = true := by decide
+
+/-- a JSON null where a property schema is expected -/
+theorem null_property_is_error (fuel : Nat) (name : String) : processField (fuel + 1) name none = .err := by
+  simp [processField, facts.1]
+
+/-- a schema without the `details` block -/
+theorem missing_details_is_error (fuel : Nat) (name : String) (s : Schema) (h : s.details = none) :
+    processField (fuel + 1) name (some s) = .err := by
+  simp [processField, h]
+
+/-- an array schema with no (innermost) `items` -/
+theorem array_without_items_is_error (fuel : Nat) (name : String) (s : Schema) (d : Details)
+    (hd : s.details = some d) (ht : s.type = "array") (hi : Model.Ffi.innermostItems 64 s.items = none) :
+    processField (fuel + 1) name (some s) = .err := by
+  have hne : ¬ ("array" = "object") := by decide
+  simp [processField, hd, ht, hne, facts.1, facts.2.1, hi]
+
+theorem placeAt_some {α : Type} (slots : List (Option α)) (i : Int) (x : α) (slots' : List (Option α))
+    (h : placeAt slots i x = some slots') :
+    0 ≤ i ∧ i.toNat < slots.length ∧ slots[i.toNat]? = some none ∧ slots' = slots.set i.toNat (some x) := by
+  unfold placeAt at h
+  split at h
+  · cases h
+  · split at h
+    · rename_i hs
+      injection h with h
+      have hlt : i.toNat < slots.length := by
+        rcases List.getElem?_eq_some_iff.mp hs with ⟨hl, _⟩; exact hl
+      exact ⟨by omega, hlt, hs, h.symm⟩
+    · cases h
+
+/-- a member whose `details.index` is missing -/
+theorem missing_index_is_error (fuel : Nat) (k : String) (so : Option Schema) (rest : List (String × Option Schema))
+    (slots : List (Option Param)) (p : Param) (hp : processField fuel k so = .ok p)
+    (hi : (so.bind fun s => s.details.bind (·.index)) = none) :
+    placeAll (fuel + 1) ((k, so) :: rest) slots = .err := by
+  simp [placeAll, hp, facts.1, hi]
+
+/-- a member position outside [0, number of members) -/
+theorem index_out_of_range_is_error (fuel : Nat) (k : String) (so : Option Schema) (rest : List (String × Option Schema))
+    (slots : List (Option Param)) (p : Param) (i : Int) (hp : processField fuel k so = .ok p)
+    (hi : (so.bind fun s => s.details.bind (·.index)) = some i) (hr : i < 0 ∨ (slots.length : Int) ≤ i) :
+    placeAll (fuel + 1) ((k, so) :: rest) slots = .err := by
+  have : placeAt slots i p = none := by
+    unfold placeAt
+    split
+    · rfl
+    · rename_i hneg
+      have hge : slots.length ≤ i.toNat := by omega
+      rw [List.getElem?_eq_none_iff.mpr hge]
+  simp [placeAll, hp, facts.1, hi, this]
+
+/-- two members claiming the same position -/
+theorem colliding_index_is_error (fuel : Nat) (k : String) (so : Option Schema) (rest : List (String × Option Schema))
+    (slots : List (Option Param)) (p q : Param) (i : Int) (hp : processField fuel k so = .ok p)
+    (hi : (so.bind fun s => s.details.bind (·.index)) = some i) (hocc : slots[i.toNat]? = some (some q)) :
+    placeAll (fuel + 1) ((k, so) :: rest) slots = .err := by
+  have : placeAt slots i p = none := by
+    unfold placeAt
+    split
+    · rfl
+    · rw [hocc]
+  simp [placeAll, hp, facts.1, hi, this]
+
+/-- the JSON type of the schema at odds with the Ethereum type -/
+theorem type_mismatch_is_error (name : String) (sc : Schema) (p : Param) (t : Ty)
+    (hp : processField 64 name (some sc) = .ok p) (ht : parseParam p = .ok t) (hv : inputTypeValid sc t = false) :
+    convertParam true name (some sc) = .err := by
+  simp [convertParam, hp, ht, hv]
+
+/-! ### no holes -/
+
+def filled {α : Type} (slots : List (Option α)) : Nat := (slots.filter Option.isSome).length
+
+theorem filled_set {α : Type} : ∀ (slots : List (Option α)) (i : Nat) (x : α), slots[i]? = some none →
+    filled (slots.set i (some x)) = filled slots + 1 := by
+  intro slots
+  induction slots with
+  | nil => intro i x h; simp at h
+  | cons s r ih =>
+    intro i x h
+    cases i with
+    | zero =>
+      simp only [List.getElem?_cons_zero, Option.some.injEq] at h
+      subst h
+      simp [filled]
+    | succ i =>
+      simp only [List.getElem?_cons_succ] at h
+      have := ih i x h
+      simp only [filled, List.set_cons_succ, List.filter_cons] at this ⊢
+      split <;> simp_all <;> omega
+
+theorem placeAll_spec : ∀ (fuel : Nat) (ps : List (String × Option Schema)) (slots slots' : List (Option Param)),
+    placeAll fuel ps slots = .ok slots' → slots'.length = slots.length ∧ filled slots' = filled slots + ps.length := by
+  intro fuel
+  induction fuel with
+  | zero => intro ps slots slots' h; simp [placeAll] at h
+  | succ fuel ih =>
+    intro ps slots slots' h
+    cases ps with
+    | nil => simp [placeAll] at h; subst h; simp
+    | cons kv rest =>
+      obtain ⟨k, so⟩ := kv
+      rw [placeAll] at h
+      cases hp : processField fuel k so with
+      | ok p =>
+        simp only [hp, facts.1, if_true] at h
+        cases hi : (so.bind fun s => s.details.bind (·.index)) with
+        | none => simp [hi] at h
+        | some i =>
+          simp only [hi] at h
+          cases hpl : placeAt slots i p with
+          | none => simp [hpl] at h
+          | some slots1 =>
+            simp only [hpl] at h
+            obtain ⟨_, hlt, hnone, hset⟩ := placeAt_some slots i p slots1 hpl
+            obtain ⟨h1, h2⟩ := ih rest slots1 slots' h
+            subst hset
+            refine ⟨by simpa using h1, ?_⟩
+            rw [h2, filled_set slots i.toNat p hnone]
+            simp; omega
+      | err => simp [hp] at h
+      | panic => simp [hp] at h
+
+theorem all_some_of_filled {α : Type} : ∀ (slots : List (Option α)), filled slots = slots.length → slots.all Option.isSome = true := by
+  intro slots
+  induction slots with
+  | nil => intro _; rfl
+  | cons s r ih =>
+    intro h
+    simp only [filled, List.filter_cons] at h
+    cases s with
+    | none =>
+      simp only [Option.isSome_none, Bool.false_eq_true, if_false, List.length_cons] at h
+      have := List.length_filter_le Option.isSome r
+      omega
+    | some x =>
+      simp only [Option.isSome_some, if_true, List.length_cons] at h
+      simp [ih (by simpa [filled] using h)]
+
+/-- **No holes.** Placing every member of an object into as many empty positions leaves none empty: the nil-parameter
+    panic of `buildABIParameterArrayForObject` is unreachable. -/
+theorem no_holes (fuel : Nat) (ps : List (String × Option Schema)) (slots' : List (Option Param))
+    (h : placeAll fuel ps (List.replicate ps.length none) = .ok slots') : slots'.all Option.isSome = true := by
+  obtain ⟨h1, h2⟩ := placeAll_spec fuel ps _ slots' h
+  apply all_some_of_filled
+  have h0 : filled (List.replicate ps.length (none : Option Param)) = 0 := by
+    simp [filled, List.filter_replicate]
+  rw [h2, h0, h1]; simp
+
+/-- so `buildParams` panics only by running out of fuel or because a member's own conversion did -/
+theorem buildParams_no_hole_panic (fuel : Nat) (props : List (String × Option Schema)) (slots : List (Option Param))
+    (h : placeAll fuel (dedupLast props) (List.replicate (dedupLast props).length none) = .ok slots) :
+    buildParams (fuel + 1) (some props) = .ok (slots.filterMap id) := by
+  rw [buildParams]
+  simp only [h, no_holes fuel _ slots h, if_true]
+
+end FFS.Props.C20
